@@ -41,6 +41,14 @@ struct RequestData<Res> {
 #[derive(Debug)]
 pub struct AlreadyExistsError;
 
+#[cfg(feature = "verif-hooks")]
+impl<Res> InFlightRequests<Res> {
+    /// (tracked in-flight requests, armed deadline timers).
+    pub fn verif_counts(&self) -> (usize, usize) {
+        (self.request_data.len(), self.deadlines.len())
+    }
+}
+
 impl<Res> InFlightRequests<Res> {
     /// Returns the number of in-flight requests.
     pub fn len(&self) -> usize {
